@@ -125,6 +125,9 @@ func (c *Ctx) PLATFLAG(rule string) []report.Obligation {
 //	-json    a hand-written MarshalJSON never puts a string between quotes with %s (it must be %q) (C09)
 //	-regexp  no regular expression of package dotenv switches on the multi-line or dot-all flags: the source is
 //	         matched from where the parser stands (C18)
+//	-verbatim package template never trims by character class, folds case or splits on white space: literal text and
+//	         operands are copied as written (C07, C08)
+//	-fold    package override never folds case: list entries are keyed exactly as mapping keys are (C03, C04)
 //	-mount   the key formats of one indexer agree: every Sprintf that starts with the default directory uses the
 //	         same format (C11, C04)
 func (c *Ctx) STRFUNC(rule string, only ...string) []report.Obligation {
@@ -153,6 +156,21 @@ func (c *Ctx) STRFUNC(rule string, only ...string) []report.Obligation {
 					good := sn == "strings.HasPrefix" || sn == "strings.CutPrefix" || sn == "strings.TrimPrefix"
 					out = append(out, verdict(good, rule+"-ext", id+" :: the extension marker is tested as a prefix", c.P.InstrPos(cs),
 						sn, "`x-` is looked for with "+sn+": a key that merely contains it (nginx-proxy, unix-socket) is taken for an extension and replaced instead of merged"))
+				}
+			}
+			if want("verbatim") && strings.HasPrefix(id, "template.") {
+				switch sn {
+				case "strings.TrimSpace", "strings.Trim", "strings.TrimLeft", "strings.TrimRight", "strings.TrimFunc", "strings.TrimLeftFunc", "strings.TrimRightFunc",
+					"strings.Fields", "strings.ToLower", "strings.ToUpper", "strings.Title", "strings.Map":
+					out = append(out, bad(rule+"-verbatim", id+" :: "+sn+" applied to template text", c.P.InstrPos(cs),
+						"package template rewrites text with "+sn+": the grammar copies literal text, defaults, replacements and messages verbatim (white space and case included), so `${V:- x}` no longer yields ` x`"))
+				}
+			}
+			if want("fold") && strings.HasPrefix(id, "override.") {
+				switch sn {
+				case "strings.ToLower", "strings.ToUpper", "strings.EqualFold", "strings.Title", "strings.ToTitle":
+					out = append(out, bad(rule+"-fold", id+" :: "+sn+" applied to a merge key", c.P.InstrPos(cs),
+						"package override folds case with "+sn+": the keys of mappings are compared exactly (YAML keys, variable names, labels are case-sensitive), so two entries of a KEY=VALUE list that differ by case only collapse into one while their mapping spelling keeps both"))
 				}
 			}
 			if want("unesc") && strings.HasPrefix(id, "tree.") && sn == "strings.Replace" && len(args) == 4 {
@@ -194,6 +212,25 @@ func (c *Ctx) STRFUNC(rule string, only ...string) []report.Obligation {
 				}
 			}
 		}
+	}
+	if want("verbatim") {
+		nT := 0
+		for _, fn := range c.P.Funcs {
+			if strings.HasPrefix(c.P.FuncID(fn), "template.") {
+				nT += len(callSites(fn, func(com *ssa.CallCommon) bool { return strings.HasPrefix(staticName(com), "strings.") }))
+			}
+		}
+		out = append(out, ok2(rule+"-verbatim", "inventory", "", fmt.Sprintf("%d calls into package strings in package template, none trims by class, folds case or splits on white space", nT)))
+		c.Stats[rule+"-verbatim.calls"] = nT
+	}
+	if want("fold") {
+		nO := 0
+		for _, fn := range c.P.Funcs {
+			if strings.HasPrefix(c.P.FuncID(fn), "override.") {
+				nO += len(callSites(fn, func(com *ssa.CallCommon) bool { return strings.HasPrefix(staticName(com), "strings.") }))
+			}
+		}
+		out = append(out, ok2(rule+"-fold", "inventory", "", fmt.Sprintf("%d calls into package strings in package override, none folds case", nO)))
 	}
 	if want("range") {
 		// -range: the endpoints of a letter range belong to it: a byte is compared with 'a', 'z', 'A', 'Z' by <= / >=
